@@ -41,7 +41,7 @@ def impl_eval(case):
                 for k, b, a in call["queries"]:
                     qd[k] = Conditional(core.f_pysmt(b, names), core.f_pysmt(a, names), core.cond_text((b, a), names))
                 try:
-                    df = man.inference(Queries(qd), multi_inference=call["multi"])
+                    df = man.inference(Queries(qd), multi_inference=call["multi"], **(call.get("budget") or {}))
                     rows = [[int(r["index"]), str(r["query"]), bool(r["result"]), bool(r["inference_timed_out"]), bool(r["preprocessing_timed_out"])]
                             for _, r in df.iterrows()]
                     out["calls"].append(("ok", rows))
@@ -223,11 +223,27 @@ def run(ctx):
             multi = par_budget > 0 and rng.random() < 0.3
             if multi:
                 par_budget -= 1
-            history.append({"queries": qs, "multi": multi})
+            # a generous time budget that never fires must not change anything (sequential or parallel)
+            budget = rng.choice([None, None, {"inference_timeout": 600}, {"total_timeout": 900}, {"total_timeout": 900, "inference_timeout": 300}])
+            history.append({"queries": qs, "multi": multi, "budget": budget})
         # bases with >= 3 layers (deep recursions, more solver state to leak) are asked with every operator
         for system, pm in (cfgs if (layers or 0) >= 3 else [(system, pm)]):
             cases.append({"n": b["n"], "weakly": b["weakly"], "base": b["base"], "layers": layers, "system": system, "pmaxsat": pm,
                           "history": history, "extra_atoms": extra_atoms})
+    # extended mode, bases without any finite layer (every conditional in the infinity layer): the operators' short paths
+    for _ in range(6 if quick else 60):
+        n = rng.randint(2, 4)
+        a = rng.randrange(n)
+        x = core.gen_formula(rng, n, 1, 0.0)
+        base = rng.choice([[(("F",), ("a", a))], [(x, ("a", a)), (("!", x), ("a", a))], [(("F",), ("a", a)), (("!", ("a", a)), ("a", a))]])
+        base = [[i + 1, b, c] for i, (b, c) in enumerate(base)]
+        pool = [core.gen_cond(rng, n, 1, 0.0) for _q in range(6)]
+        history = []
+        for _c in range(rng.randint(2, 4)):
+            qs = [[k] + list(rng.choice(pool)) for k in rng.sample(range(0, 30), rng.randint(2, 4))]
+            history.append({"queries": qs, "multi": False, "budget": None})
+        for system, pm in [c for c in CFGS if c[0] != "c-inference"]:
+            cases.append({"n": n, "weakly": True, "base": base, "layers": 0, "system": system, "pmaxsat": pm, "history": history, "extra_atoms": False})
     impls = pmap_nd(impl_eval, cases, min(ctx.procs, 8))
     for c, impl in zip(cases, impls):
         ref = impl.get("ref") if c["system"] == "c-inference" else reference(c)
